@@ -18,8 +18,14 @@ ASSUMPTIONS = ['lines contain no line breaks and only space/tab as whitespace',
                'to_str of empty contents may be "" or a single newline']
 SHARDS = {'thorough': 16}
 
+# a "line" is one item of the content: it holds no \n, but it may hold other characters that Python's
+# splitlines() treats as line boundaries (between two letters, never at an edge)
 line = st.lists(st.sampled_from(list('ab \t/-*') + ['  ', 'word']), max_size=6).map(''.join)
 lines = st.lists(st.one_of(line, st.sampled_from(['', ' ', '\t', 'x'])), max_size=7)
+# for the indenter called directly (a TextBlock would split such an item, C17)
+line_x = st.lists(st.sampled_from(list('ab \t/-*') + ['  ', 'word', 'x\x0cy', 'p\u2028q', 'm\rn', 'u\x85v',
+                                                       'g\x1ch', 'k\x0bl']), max_size=6).map(''.join)
+lines_x = st.lists(st.one_of(line_x, line, st.sampled_from(['', ' ', '\t', 'x'])), max_size=7)
 glyph = st.lists(st.sampled_from(list('-*/>#ab+.')), min_size=1, max_size=8).map(''.join)
 cfg = st.fixed_dictionaries({
     'tab': st.booleans(),
@@ -69,14 +75,29 @@ def spec(c, ls):
     return out
 
 
+def exact_lines(c, n):
+    """Which of n lines get the plain prefix (no bullet)?"""
+    if c['bullet'] is None:
+        return [True] * n
+    if c['bullet']['mode'] == 'FIRST_ONLY':
+        return [False] + [True] * (n - 1)
+    return [False] * n
+
+
 def trailing(s):
     return len(s) - len(s.rstrip(' \t'))
 
 
-def compare(got, want, src, what):
+def compare(got, want, src, what, exact=None):
+    """exact: per line, must the text match including its own trailing blanks?  (Plain indentation
+    and the continuation lines of FIRST_ONLY put the prefix in front of the untouched text; bulleted
+    lines may lose trailing blanks - not flagged.)"""
     if not isinstance(got, list) or len(got) != len(want):
         raise Fail(f'{what}: {len(want)} lines in, got {got!r}', 'line-count')
-    for g, w, s in zip(got, want, src):
+    for i, (g, w, s) in enumerate(zip(got, want, src)):
+        if exact is not None and exact[i] and not is_blank(s) and g != w:
+            raise Fail(f'{what}: line {s!r} became {g!r}, specification says {w!r} (text must be '
+                       f'kept as it is, trailing blanks included)', 'line-text-exact')
         if g.rstrip(' \t') != w.rstrip(' \t'):
             raise Fail(f'{what}: line {s!r} became {g!r}, specification says {w!r}', 'line-text')
         if trailing(g) > trailing(s):
@@ -95,7 +116,7 @@ def check_to_list(case):
         if cur != before:
             raise Fail('to_list changed its argument', 'mutates-arg')
         want = spec(case['cfg'], src)
-        compare(got, want, src, f'to_list round {rnd + 1}')
+        compare(got, want, src, f'to_list round {rnd + 1}', exact_lines(case['cfg'], len(src)))
         cur = got
 
 
@@ -271,13 +292,13 @@ def labels(c):
 
 def run(ctx):
     n = ctx.n(3000, 300000)
-    ctx.clause('to_list', st.fixed_dictionaries({'cfg': cfg, 'lines': lines,
+    ctx.clause('to_list', st.fixed_dictionaries({'cfg': cfg, 'lines': lines_x,
                                                  'times': st.integers(1, 3)}),
                check_to_list, n, nontrivial=nontrivial, labels=labels)
-    ctx.clause('to_str', st.fixed_dictionaries({'cfg': cfg, 'lines': lines}), check_to_str,
+    ctx.clause('to_str', st.fixed_dictionaries({'cfg': cfg, 'lines': lines_x}), check_to_str,
                max(1, n // 3), nontrivial=nontrivial, labels=labels)
     ctx.clause('nested', st.fixed_dictionaries({
-        'cfg': cfg, 'lines': lines, 'cut': st.tuples(st.integers(0, 8), st.integers(0, 8)),
+        'cfg': cfg, 'lines': lines_x, 'cut': st.tuples(st.integers(0, 8), st.integers(0, 8)),
         'shape': st.sampled_from(['list', 'deep', 'dict'])}), check_nested, max(1, n // 4),
         nontrivial=lambda c: nontrivial(c) and len(c['lines']) >= 2, labels=labels)
     hdr_line = st.lists(st.sampled_from(list('ab ') + ['  ']), min_size=1, max_size=5).map(
